@@ -32,6 +32,11 @@ def main():
         i = argv.index("--workers")
         workers = int(argv[i + 1])
         del argv[i:i + 2]
+    only = None
+    if "--only" in argv:            # --only C03,C18 : restrict the checks that are run (e.g. the ones whose harness changed)
+        i = argv.index("--only")
+        only = argv[i + 1].split(",")
+        del argv[i:i + 2]
     allc = "--all-checks" in argv
     benign = "--benign" in argv
     from_head = "--head" in argv
@@ -72,6 +77,8 @@ def main():
             d = os.path.join(VERIF, base, name)
             meta = json.load(open(os.path.join(d, "meta.json")))
             props = ["C%02d" % i for i in range(1, 21)] if (allc or benign) else [meta["property"]] + list(meta.get("also_run", []))
+            if only:
+                props = only
             sh(["git", "-C", wt, "checkout", "--", "."])
             sh(["git", "-C", wt, "clean", "-fdq"])
             demo = os.path.join(d, "demo.py")
